@@ -63,6 +63,27 @@ def seeded() -> str:
     return "\n".join(out)
 
 
+def benign() -> str:
+    rows = [json.loads(Path(f).read_text()) for f in sorted(glob.glob(str(V / "benign" / "*" / "meta.json")))]
+    if not rows:
+        return "(no harmless change has been evaluated yet)"
+    summ = json.loads((V / "benign" / "summary.json").read_text()) if (V / "benign" / "summary.json").exists() else {}
+    out = ["| Change | Property | What it does | Outcome of the quick check | Note |", "|---|---|---|---|---|"]
+    n = {"PASS": 0, "NFIF": 0, "ALARM": 0, "ERROR": 0}
+    for m in rows:
+        cls = "; ".join(f"{c}: {r['class']}" for c, r in m.get("checks", {}).items())
+        for r in m.get("checks", {}).values():
+            n[r["class"]] = n.get(r["class"], 0) + 1
+        s = summ.get(m["id"], {})
+        out.append("| {id} | {p} | {w} | {c} | {note} |".format(id=m["id"], p=m["property"],
+                   w=(s.get("what") or m.get("what", ""))[:200].replace("|", "/"), c=cls, note=s.get("note", "")))
+    out.append("")
+    out.append(f"{len(rows)} harmless changes: {n['PASS']} pass, {n['NFIF']} end as `VIOLATION … no-failing-input-found` (the tie could not follow "
+               f"the rewrite and the search found nothing - the outcome the interface prescribes), {n['ALARM']} produced a concrete \"failing input\" "
+               f"(false alarms; each is discussed in its row and was corrected), {n['ERROR']} errors.")
+    return "\n".join(out)
+
+
 def all_findings():
     out = []
     for f in [V / "known_findings.json"] + sorted((V / "known_findings.d").glob("*.json")):
@@ -93,7 +114,7 @@ def repairs() -> str:
 def main() -> None:
     t = (V / "DESIGN.template.md").read_text()
     fs = all_findings()
-    t = t.replace("@APPENDIX@", appendix()).replace("@SEEDED@", seeded()).replace("@REPAIRS@", repairs())
+    t = t.replace("@APPENDIX@", appendix()).replace("@SEEDED@", seeded()).replace("@REPAIRS@", repairs()).replace("@BENIGN@", benign())
     t = t.replace("@NKNOWN@", str(sum(1 for e in fs if e.get("status") == "known"))).replace("@NFIXED@", str(sum(1 for e in fs if e.get("status") == "fixed")))
     (V / "DESIGN.md").write_text(t)
     print("DESIGN.md written")
